@@ -184,6 +184,8 @@ flow_mod!(c31_two_batches, "c31_two_batches");
 flow_mod!(c31_state_counter, "c31_state_counter");
 flow_mod!(c31_state_prev_last, "c31_state_prev_last");
 flow_mod!(c31_lookup_counts, "c31_lookup_counts");
+flow_mod!(c31_state_opt_keep, "c31_state_opt_keep");
+runner1!(run_c31_state_opt_keep, c31_state_opt_keep, state_opt_keep, i32, Option<i32>);
 runner1!(run_c31_batches, c31_batches, batches, i32, i32);
 runner1!(run_c31_batch_snap, c31_batch_snap, batch_snap, i32, (usize, usize));
 runner2!(run_c31_two_batches, c31_two_batches, two_batches, i32, i32, ((usize, usize), (i32, i32)));
